@@ -16,6 +16,7 @@ def main():
     cases, hist_cases = [], []
     for s in scripts:
         beats = rng.choice([0, 0, 1, 3])
+        s = dict(s, poke=rng.random() < 0.7)   # the telemetry bridge hands metric facets to the emitter during and after the run
         obs = cl.run_script(s, with_lineage=True, beats=beats, race=rng.random() < 0.5)
         cl.life_oracle(run, s, obs, {'C18'})
         ev = [e for e, _ in obs['events']]
@@ -37,7 +38,7 @@ def main():
     run.samples.append(dict(family='history', script=cases[3][2]['script'], events=cases[3][2]['events']))
     run.rule = ('scripted Filter subclass under the real Filter.run with a real OpenFilterLineage whose client is a capturing fake: every way a '
                 'run can end (exit() / Exception / propagated error / KeyboardInterrupt at every lifecycle stage, stop event) as single faults '
-                'under all policies plus random multi-fault scripts, with 0-3 forced heartbeat passes (run shorter/longer than the interval); '
+                'under all policies plus random multi-fault scripts, in 70% of the runs with the telemetry bridge calling update_heartbeat_lineage calls during the loop and after the run, with 0-3 forced heartbeat passes (run shorter/longer than the interval); '
                 'non-trivial = at least one event emitted; distinct by hash of script and heartbeat count')
     run.partial = ['the interleaving of the real heartbeat thread with the main thread is whatever the OS scheduler does in each run (the theorem '
                    'quantifies over all interleavings at action granularity; pre-emption inside one _emit_event call is excluded by the emitter lock)',
